@@ -215,3 +215,40 @@ def commit_is_final(ctx, rid, repex_rel="infretis/classes/repex.py"):
                         construct="after write_toml: " + short(n.ast, 70))
     if not bad:
         ctx.ok(rid, commits[0], f"write_toml is the last statement of the step that touches persisted state {sorted(persisted)}")
+
+
+def numeric_option_truthiness(ctx, rid, rels, what):
+    """A numeric parameter that may legitimately be 0.0 (annotated float / Optional[float] /
+    Union[float, bool], default None or False) is tested for being set with `is None` /
+    `is not False`, never by truthiness (`x or d`, `if x:`, `not x`)."""
+    from ..loader import FUNC
+    n = 0
+    for m, q, f in ctx.tree.all_funcs(rels):
+        args = f.args.posonlyargs + f.args.args + f.args.kwonlyargs
+        defaults = [None] * (len(f.args.posonlyargs + f.args.args) - len(f.args.defaults)) + list(f.args.defaults) + list(f.args.kw_defaults)
+        cands = {}
+        for a, d in zip(args, defaults):
+            ann = ast.unparse(a.annotation) if a.annotation is not None else ""
+            if "float" not in ann:
+                continue
+            if d is None or not (isinstance(d, ast.Constant) and d.value in (None, False)):
+                continue
+            cands[a.arg] = ann
+        if not cands:
+            continue
+        for x in walk_local(f):
+            tests = []
+            if isinstance(x, ast.BoolOp):
+                tests += x.values
+            if isinstance(x, (ast.If, ast.While, ast.IfExp)):
+                tests.append(x.test)
+            if isinstance(x, ast.UnaryOp) and isinstance(x.op, ast.Not):
+                tests.append(x.operand)
+            for t in tests:
+                if isinstance(t, ast.Name) and t.id in cands:
+                    n += 1
+                    ctx.bad(rid, x, f"{q}: the numeric parameter {t.id!r} ({cands[t.id]}) is tested by truthiness: a legitimate value of 0.0 is treated as 'not given' ({what})",
+                            construct=short(x, 70))
+        for nm in cands:
+            ctx.ok(rid, f, f"{q}: optional numeric parameter {nm!r} is never tested by truthiness")
+    return n
